@@ -17,7 +17,11 @@ let eval_gen (toks : ostring list) : ostring =
   | ["at_jdn"; c; j] -> let c = cal_of c in date_s (run (calendar_at_jdn c (i32 j)))
   | ["at_ymd"; c; y; m; d] -> let c = cal_of c in res_date (run (calendar_at_ymd c (i32 y) (month_of_int m) (u32 d)))
   | ["at_ordinal_date"; c; y; o] -> let c = cal_of c in res_date (run (calendar_at_ordinal_date c (i32 y) (u32 o)))
-  | ["year_kind"; c; y] -> let c = cal_of c in ykind_s (run (calendar_year_kind c (i32 y)))
+  | ["year_kind"; c; y] ->
+    let c = cal_of c in
+    let k = run (calendar_year_kind c (i32 y)) in
+    Printf.sprintf "%s;is_leap=%s;is_common=%s;is_reform=%s;is_skipped=%s" (ykind_s k) (bool_s (run (yearKind_is_leap k)))
+      (bool_s (run (yearKind_is_common k))) (bool_s (run (yearKind_is_reform k))) (bool_s (run (yearKind_is_skipped k)))
   | ["year_length"; c; y] -> let c = cal_of c in zs (run (calendar_year_length c (i32 y)))
   | ["month_shape"; c; y; m] ->
     let c = cal_of c in
